@@ -71,6 +71,8 @@ CANARIES = [
     ("lock-flag-not-cleared", "c08_locks", "_utils/lock_management.py", "    if arr.flags.writeable is True:\n        arr.flags.writeable = False\n", "", r"C08\."),
     ("release-decrement-two", "c08_locks", "_utils/lock_management.py", "        _array_counter[arr_id] = num_active_ops - 1", "        _array_counter[arr_id] = num_active_ops - 2", r"C08\."),
     ("release-ignores-locked-base", "c08_locks", "_utils/lock_management.py", "        if arr.base is not None and arr.base.flags.writeable is False:", "        if False:", r"C08\."),
+    ("release-waiting-views-on-every-release", "c08_locks", "_utils/lock_management.py", "        arr.base is None\n        and arr.flags.writeable\n        and (arr_id in _views_waiting_for_unlock)", "        arr.base is None\n        and num_active_ops > 0\n        and (arr_id in _views_waiting_for_unlock)", r"C08\.release\.waiting_views_(processed_only_when_owner_is_writeable_again|not_skipped)"),
+    ("release-waiting-views-never", "c08_locks", "_utils/lock_management.py", "        and (arr_id in _views_waiting_for_unlock)\n    ):", "        and False\n    ):", r"C08\.release\.waiting_views_not_skipped"),
     ("tracked-ignores-dead-ref", "c08_locks", "_utils/lock_management.py", "    return arr_id in _array_tracker and _array_tracker[arr_id]() is not None", "    return arr_id in _array_tracker", r"C08\."),
     # ---- reduce_broadcast (c01_rb) --------------------------------------------------------------------------------------
     ("rb-keepdims-eq", "c01_rb", "_utils/__init__.py", "if i != var_shape[n])", "if i == var_shape[n])", r"C01\.rb"),
